@@ -141,7 +141,23 @@ pub fn execute_guarded(scn: &dyn Scenario, spec: &Spec, st: &mut Stats) -> RunEn
     if flying {
         wallclock::set_step_ns(0);
     }
-    r
+    // An operation of the code under test that panics did not return what the functional properties
+    // demand of it (the projection of the stream, the documented replacement, the procedure's value, a
+    // verdict ...): for those properties it is a violation of their own, keyed by the panic site. (C14
+    // keys its violations the same way; C17, C18 and C19 compare and do not demand a value. The one
+    // documented panic, set_rounds(0), is issued and contained by the scenarios themselves.)
+    match r {
+        RunEnd::Discard(s) if s.starts_with("SUT_PANIC") && matches!(scn.id(), "C05" | "C08" | "C09" | "C10" | "C11" | "C12" | "C13" | "C16") => {
+            let site = s.rsplit(" @ ").next().unwrap_or("?").to_string();
+            let site = match site.rfind("/rand_") {
+                Some(i) => site[i + 1..].to_string(),
+                None => site,
+            };
+            let what = s.split(']').next().unwrap_or("").trim_start_matches("SUT_PANIC[").to_string();
+            RunEnd::Violation(crate::spec::Violation::new(&format!("{}/operation_panicked@{}", scn.id(), site), what, s))
+        }
+        other => other,
+    }
 }
 
 #[derive(Serialize, Deserialize, Clone, Debug)]
